@@ -57,7 +57,7 @@ func init() {
 		ID: "C01", Level: "exploration",
 		Rule:        "sequential conformance histories (generated from the seed: 1-2 pipelines over all 84 admission classes, ≤34 operations: schedule / finish / fail / cancel (with slow-to-stop tasks) / delay expiry / unstartable jobs) executed against the real runner; after every operation the system is driven to logical quiescence and the executing set, every task interval and every reported job span are compared with the reference model; plus concurrent stress histories (3 schedulers, 2 cancelers, 2 snapshot readers, optional random parking of scheduler loops) judged offline: every atomic snapshot has at most `concurrency` executing jobs, no job starts while `concurrency` others execute (reported spans and task-interval hulls), and the recorded API history is linearizable w.r.t. the sequential admission model (porcupine); a situation is (admission class, #running, #waiting) resp. (#others executing at a job start, limit) resp. overlapping operation pairs; distinct_nontrivial counts distinct situations in which the oracle was evaluated",
 		Assumptions: []string{seqAssumption},
-		Cases: func(t string) int { return tierN(t, 1600, 40000) + tierN(t, 240, 6000) },
+		Cases:       func(t string) int { return tierN(t, 1600, 40000) + tierN(t, 240, 6000) },
 		RunCase: func(c *CaseCtx) *CaseResult {
 			if c.Idx >= tierN(c.Tier, 1600, 40000) {
 				// schedules: concurrent clients; snapshot invariant, offline interval checker and linearizability
@@ -243,9 +243,11 @@ func init() {
 	nDirected := drv.NumCancelVariants * 9 * 7
 	register(&Check{
 		ID: "C04", Level: "exploration",
-		Rule: "the instant is the quantifier: directed sweep = 9 cancel variants (cancel delivered exactly between the scheduler's launch of a task and the runner's entry, so that the runner refuses the task; loop parked at an iteration boundary through hook H1 with the cancel fully delivered before release / racing the release; task inside Run; racing the last task's exit; waiting behind a busy slot; waiting with pending delay; waiting with expired delay behind a busy slot; 3 concurrent duplicate cancels) x 9 graph shapes x every boundary 0..6 (number of tasks finished before), delivery observed through the runner's Cancel events; repeated with the REAL taskctl.TaskRunner and shell scripts (marker files prove which tasks executed); plus cancel-heavy conformance histories with slow-to-stop tasks. Oracles: canceled waiting job never runs a task; running job's runner is told to stop; no task begins after the stop was delivered; terminal report canceled, never plain success while tasks were left unrun or stopped; cancel result classes (second cancel = no-op, unknown id = not found, finished job unchanged). A situation is (variant, real?, #tasks, #done at the boundary, #running at park)",
+		Rule:        "the instant is the quantifier: directed sweep = 9 cancel variants (cancel delivered exactly between the scheduler's launch of a task and the runner's entry, so that the runner refuses the task; loop parked at an iteration boundary through hook H1 with the cancel fully delivered before release / racing the release; task inside Run; racing the last task's exit; waiting behind a busy slot; waiting with pending delay; waiting with expired delay behind a busy slot; 3 concurrent duplicate cancels) x 9 graph shapes x every boundary 0..6 (number of tasks finished before), delivery observed through the runner's Cancel events; repeated with the REAL taskctl.TaskRunner and shell scripts (marker files prove which tasks executed); plus cancel-heavy conformance histories with slow-to-stop tasks. Oracles: canceled waiting job never runs a task; running job's runner is told to stop; no task begins after the stop was delivered; terminal report canceled, never plain success while tasks were left unrun or stopped; cancel result classes (second cancel = no-op, unknown id = not found, finished job unchanged). A situation is (variant, real?, #tasks, #done at the boundary, #running at park)",
 		Assumptions: []string{seqAssumption, "a cancel that loses the race against natural completion (every task ran to its end unstopped) may be reported as success: the oracle is silent there"},
-		Cases:       func(t string) int { return nDirected + tierN(t, 90, 1200) + tierN(t, 600, 20000) + len(drv.ProcShapes()) + tierN(t, 0, nDirected*19) },
+		Cases: func(t string) int {
+			return nDirected + tierN(t, 90, 1200) + tierN(t, 600, 20000) + len(drv.ProcShapes()) + tierN(t, 0, nDirected*19)
+		},
 		RunCase: func(c *CaseCtx) *CaseResult {
 			nReal := tierN(c.Tier, 108, 1296)
 			nHist := tierN(c.Tier, 600, 20000)
@@ -317,7 +319,7 @@ func delayParams(idx int) drv.DelayOpts {
 func init() {
 	register(&Check{
 		ID: "C07", Level: "exploration",
-		Rule: "REAL timers (time.AfterFunc): start_delay d in {2,5,20} ms x strategy x queue_limit {nil,1,2} x concurrency {1,2} x bursts of 1-8 requests with gaps drawn from {0,d/4,d/2,0.9d,1.1d,2d} x pipeline busy or idle (blocker released 0..2d after the last request) x cancel of the waiter inside the burst; every 11th case is a 4-client stress burst with a random finisher. Oracles: Start-Created >= d and first run-enter - request issue time >= d (monotonic clocks; slowness can only enlarge them); with every pending delay handler returned (hook H2) a free slot and a waiting job never coexist at logical quiescence; replaced / canceled-while-waiting jobs never enter the runner; under replace no job starts after a newer one was accepted while it waited, and the most recently accepted job runs; plus conformance histories with logically fired delays (C07-tagged oracles of the sequential driver). A situation is (d, strategy, limit, concurrency, busy, gap pattern) / (executing, waiting) at quiescence",
+		Rule:        "REAL timers (time.AfterFunc): start_delay d in {2,5,20} ms x strategy x queue_limit {nil,1,2} x concurrency {1,2} x bursts of 1-8 requests with gaps drawn from {0,d/4,d/2,0.9d,1.1d,2d} x pipeline busy or idle (blocker released 0..2d after the last request) x cancel of the waiter inside the burst; every 11th case is a 4-client stress burst with a random finisher. Oracles: Start-Created >= d and first run-enter - request issue time >= d (monotonic clocks; slowness can only enlarge them); with every pending delay handler returned (hook H2) a free slot and a waiting job never coexist at logical quiescence; replaced / canceled-while-waiting jobs never enter the runner; under replace no job starts after a newer one was accepted while it waited, and the most recently accepted job runs; plus conformance histories with logically fired delays (C07-tagged oracles of the sequential driver). A situation is (d, strategy, limit, concurrency, busy, gap pattern) / (executing, waiting) at quiescence",
 		Assumptions: []string{seqAssumption, "timer expiry is observed through hook H2 (delay-handler entered/returned); no verdict depends on a wall-clock deadline"},
 		Cases:       func(t string) int { return tierN(t, 700, 14000) + tierN(t, 500, 10000) },
 		RunCase: func(c *CaseCtx) *CaseResult {
@@ -361,7 +363,7 @@ func init() {
 func init() {
 	register(&Check{
 		ID: "C16", Level: "exploration",
-		Rule: "conformance histories with definition reloads: 1-2 reloads per ~10 operations, each applying 1-2 mutation operators (add / remove / rename task, rewire depends_on, change script, task env, pipeline env, allow_failure, start_delay 0<->set, concurrency +-1, queue_limit, queue_strategy, remove and re-add the pipeline) at whatever point of their life the existing jobs are (waiting behind a busy slot, delayed with pending / expired timer, running inside a task, running and parked between two tasks through hook H1). The monitored runner records the task.Task it is actually handed; oracles: commands / task env / pipeline env / allow_failure / variables of every run-enter equal the deep copy of the definition taken when the schedule request returned; a plain-success job ran exactly the tasks of that definition, in its dependency order; a job accepted under a start delay never begins before its own delay expired, one accepted without delay is not stranded by a reload that introduces one; the job list is deep-equal across the ReplaceDefinitions call; jobs of pipelines that remain defined all end terminal; the admission model (per-job timer state, current limits) is followed after every step. A situation is the (truncated) list of mutation operators / (reloaded?, env present?) per run-enter",
+		Rule:        "conformance histories with definition reloads: 1-2 reloads per ~10 operations, each applying 1-2 mutation operators (add / remove / rename task, rewire depends_on, change script, task env, pipeline env, allow_failure, start_delay 0<->set, concurrency +-1, queue_limit, queue_strategy, remove and re-add the pipeline) at whatever point of their life the existing jobs are (waiting behind a busy slot, delayed with pending / expired timer, running inside a task, running and parked between two tasks through hook H1). The monitored runner records the task.Task it is actually handed; oracles: commands / task env / pipeline env / allow_failure / variables of every run-enter equal the deep copy of the definition taken when the schedule request returned; a plain-success job ran exactly the tasks of that definition, in its dependency order; a job accepted under a start delay never begins before its own delay expired, one accepted without delay is not stranded by a reload that introduces one; the job list is deep-equal across the ReplaceDefinitions call; jobs of pipelines that remain defined all end terminal; the admission model (per-job timer state, current limits) is followed after every step. A situation is the (truncated) list of mutation operators / (reloaded?, env present?) per run-enter",
 		Assumptions: []string{seqAssumption, "continue_running_tasks_after_failure is deliberately read from the current definition by the code and is not in the property's list: task failures are not injected in reload histories"},
 		Cases:       func(t string) int { return tierN(t, 1500, 36000) },
 		RunCase: func(c *CaseCtx) *CaseResult {
@@ -396,7 +398,7 @@ func init() {
 func init() {
 	register(&Check{
 		ID: "C10", Level: "fault_enumeration",
-		Rule: "crash points = every snapshot persisted during a conformance history: explicit SaveToStore operations sprinkled over every position of the history (all job states: waiting, delayed, running with a subset of tasks done, completed, failed, canceled in each phase, unstartable) and the saves of the persist loop, recorded by a wrapper around the REAL JsonDataStore that copies data.json aside after every save; for EACH of them a fresh runner is started on the copy and must report: every job terminal, no pipeline running, every pipeline schedulable and its first request accepted (started at once without delay), id multiset equal to the snapshot's, and every job that was finished in the snapshot exactly as the live runner reports it (flags, timestamps with time.Equal, user, lastError text, variables deep-equal as arbitrary JSON values with floats of 1-17 significant digits over 1e-9..1e21, task order / status / times / exit code / errored / error text / skipped). Every 4th case is a prepared store 'from an earlier run' with every mix of flags and task statuses (incl. states that exist only between two steps of the runner, non-UTC zones, sub-microsecond digits). A situation is (finished, running, waiting) of a snapshot / the state of a restarted job",
+		Rule:        "crash points = every snapshot persisted during a conformance history: explicit SaveToStore operations sprinkled over every position of the history (all job states: waiting, delayed, running with a subset of tasks done, completed, failed, canceled in each phase, unstartable) and the saves of the persist loop, recorded by a wrapper around the REAL JsonDataStore that copies data.json aside after every save; for EACH of them a fresh runner is started on the copy and must report: every job terminal, no pipeline running, every pipeline schedulable and its first request accepted (started at once without delay), id multiset equal to the snapshot's, and every job that was finished in the snapshot exactly as the live runner reports it (flags, timestamps with time.Equal, user, lastError text, variables deep-equal as arbitrary JSON values with floats of 1-17 significant digits over 1e-9..1e21, task order / status / times / exit code / errored / error text / skipped). Every 4th case is a prepared store 'from an earlier run' with every mix of flags and task statuses (incl. states that exist only between two steps of the runner, non-UTC zones, sub-microsecond digits). A situation is (finished, running, waiting) of a snapshot / the state of a restarted job",
 		Assumptions: []string{seqAssumption, "a crash is modelled as 'the process restarts from the last snapshot that reached the store'; C09 covers what can be on disk"},
 		Cases:       func(t string) int { return tierN(t, 600, 14000) },
 		RunCase: func(c *CaseCtx) *CaseResult {
@@ -447,7 +449,7 @@ func simpleCase(c *CaseCtx, h *drv.HistResult, sampleEvery int) *CaseResult {
 func init() {
 	register(&Check{
 		ID: "C12", Level: "exploration",
-		Rule: "populations: retention_count in {0,1,2,5} x retention_period in {0,1h,24h} per pipeline (1-3 pipelines + one that is no longer defined), 0-8 jobs per pipeline loaded from a prepared store file 'from an earlier run' (finished, canceled-unstarted, formerly running, formerly waiting; ages k*30min+7min so that every job is >= 7 minutes away from a period boundary) in shuffled file order, plus 0-4 live jobs per round (waiting, running, finished, failed, canceled) on the REAL JsonDataStore and FileOutputStore with log files for every job; optional reload that removes a pipeline; 1-3 rounds of activity + SaveToStore. Oracle = pure function of (view before, view after, store file, recursive hash of the log tree before/after): no waiting/running job removed; <= retention_count finished jobs left; none older than the period; a kept finished job has no removed newer finished job; nothing removed without settings; undefined pipelines purged; API id set == store id set == restarted runner; removed jobs' log directories gone, kept jobs' log files byte-identical. A situation is (count, period, #finished, #unfinished)",
+		Rule:        "populations: retention_count in {0,1,2,5} x retention_period in {0,1h,24h} per pipeline (1-3 pipelines + one that is no longer defined), 0-8 jobs per pipeline loaded from a prepared store file 'from an earlier run' (finished, canceled-unstarted, formerly running, formerly waiting; ages k*30min+7min so that every job is >= 7 minutes away from a period boundary) in shuffled file order, plus 0-4 live jobs per round (waiting, running, finished, failed, canceled) on the REAL JsonDataStore and FileOutputStore with log files for every job; optional reload that removes a pipeline; 1-3 rounds of activity + SaveToStore. Oracle = pure function of (view before, view after, store file, recursive hash of the log tree before/after): no waiting/running job removed; <= retention_count finished jobs left; none older than the period; a kept finished job has no removed newer finished job; nothing removed without settings; undefined pipelines purged; API id set == store id set == restarted runner; removed jobs' log directories gone, kept jobs' log files byte-identical. A situation is (count, period, #finished, #unfinished)",
 		Assumptions: []string{seqAssumption, "ages are never measured against 'now' at check time with less than 7 minutes of margin"},
 		Cases:       func(t string) int { return tierN(t, 500, 12000) },
 		RunCase: func(c *CaseCtx) *CaseResult {
@@ -460,7 +462,7 @@ func init() {
 func init() {
 	register(&Check{
 		ID: "C11", Level: "exploration",
-		Rule: "shutdown scenarios: state at shutdown begin drawn from a conformance prefix (running multi-task jobs with a subset of tasks done, waiting, delayed-pending, finished jobs) x graceful / forced (deadline 0-1.5 ms) x clients racing the shutdown (schedule directly and via POST /pipelines/schedule, cancel, SaveToStore, snapshots) x a store whose Save takes 0.2-2 ms (saves in flight when Shutdown returns) x a finisher that lets tasks end one at a time (later tasks of multi-task jobs must still be launched during a graceful shutdown). Oracles keyed on the Shutdown return event R: every job terminal and none executing at R; no run-enter without run-exit at R and none after R; reported state deep-equal at R and after all in-flight saves have landed; the LAST snapshot that reached the store equals the state at R; no request issued after R accepted (503 over HTTP); requests accepted during the shutdown terminal at R; graceful: jobs running at begin are never told to stop and run all remaining tasks to success, waiting jobs end canceled without running; forced: everything terminal. First cases: the persist loop - an acknowledged schedule / cancel / completion must be carried by a save within 10 s (period 3 s) counted in heartbeats of the harness process, also with a 200 ms Save so that changes land during a save. A situation is (forced, slowSave, clients, #running, #waiting, #finished at begin) and what was observed (request accepted during shutdown, save landing after return, ...)",
+		Rule:        "shutdown scenarios: state at shutdown begin drawn from a conformance prefix (running multi-task jobs with a subset of tasks done, waiting, delayed-pending, finished jobs) x graceful / forced (deadline 0-1.5 ms) x clients racing the shutdown (schedule directly and via POST /pipelines/schedule, cancel, SaveToStore, snapshots) x a store whose Save takes 0.2-2 ms (saves in flight when Shutdown returns) x a finisher that lets tasks end one at a time (later tasks of multi-task jobs must still be launched during a graceful shutdown). Oracles keyed on the Shutdown return event R: every job terminal and none executing at R; no run-enter without run-exit at R and none after R; reported state deep-equal at R and after all in-flight saves have landed; the LAST snapshot that reached the store equals the state at R; no request issued after R accepted (503 over HTTP); requests accepted during the shutdown terminal at R; graceful: jobs running at begin are never told to stop and run all remaining tasks to success, waiting jobs end canceled without running; forced: everything terminal. First cases: the persist loop - an acknowledged schedule / cancel / completion must be carried by a save within 10 s (period 3 s) counted in heartbeats of the harness process, also with a 200 ms Save so that changes land during a save. A situation is (forced, slowSave, clients, #running, #waiting, #finished at begin) and what was observed (request accepted during shutdown, save landing after return, ...)",
 		Assumptions: []string{seqAssumption, "the persist-interval clause is inherently timed: limit 10 s for a 3 s period, measured in heartbeats so that a stalled machine stalls the clock"},
 		Cases:       func(t string) int { return tierN(t, 6, 40) + tierN(t, 2, 24) + tierN(t, 400, 9000) },
 		RunCase: func(c *CaseCtx) *CaseResult {
@@ -477,10 +479,10 @@ func init() {
 				return simpleCase(c, drv.RunBinaryCase(c.Seed, bin, c.TmpDir, (c.Idx-nPersist)%2 == 1), 1)
 			}
 			k := c.Idx - nPersist - nBin
-			o := drv.ShutdownOpts{Forced: k%2 == 1, SlowSave: (k/2)%2 == 0, Clients: (k/4)%4 != 3, HTTP: (k/16)%2 == 0}
+			o := drv.ShutdownOpts{Forced: k%2 == 1, SlowSave: (k/2)%2 == 0, Clients: (k/4)%4 != 3, HTTP: (k/16)%2 == 0, NoStore: k%32 == 31}
 			return simpleCase(c, drv.RunShutdownCase(c.Seed, o), 150)
 		},
-		MinDistinct: 25,
+		MinDistinct:   25,
 		WorkerTimeout: func(t string) time.Duration { return 30 * time.Minute },
 	})
 }
